@@ -455,3 +455,74 @@ def resolve_same_automaton(kind, seed, n_pairs, backend='cudd'):
         return dict(records=[], stats=dict(), functions={}, bounded=dict(
             evaluations=n, kind=kind, backend=backend, failures=fails[:6]))
     return run
+
+
+def chain_games(backend='cudd'):
+    """BOUNDED, deterministic: Rabin(1) games whose winning region grows by one
+    position per OUTER iteration, the persistence sets taking turns (so the
+    cycle set of a persistence predicate grows again after it stood still):
+    chain of N positions, the environment chooses between staying and moving
+    one position down, K persistence sets by position modulo K."""
+    def run():
+        from ovc import explicit
+        import dd.autoref as autoref
+        fails = list()
+        n = 0
+        for N in (3, 4, 5, 6):
+            for K in (2, 3):
+                for moore in (True, False):
+                    for plus_one in (True, False):
+                        for order in (0, 1):
+                            n += 1
+                            aut = trl.Automaton()
+                            if backend == 'autoref':
+                                aut.bdd = autoref.BDD()
+                            aut.declare_variables(a='bool', b=(0, N))
+                            aut.varlist = dict(env=['a'], sys=['b'])
+                            aut.moore, aut.plus_one, aut.qinit = moore, plus_one, r'\A \E'
+                            aut.prime_varlists()
+                            pick = 'a' if moore else "a'"
+                            parts = ["((b = 0) => (b' = 0))", f"((b = {N}) => (b' = {N}))", rf"(b \in 0..{N})", rf"(b' \in 0..{N})"]
+                            for k in range(1, N):
+                                parts.append(f"((b = {k}) => (b' = IF {pick} THEN {k - 1} ELSE {k}))")
+                            aut.action['env'] = aut.true
+                            aut.action['sys'] = aut.add_expr(' /\\ '.join(parts))
+                            holds = [aut.add_expr(' \\/ '.join([f'(b = {k})' for k in range(N) if k % K == i] or ['FALSE']))
+                                     for i in range(K)]
+                            if order:
+                                holds.reverse()
+                            aut.win['<>[]'] = holds
+                            aut.win['[]<>'] = [aut.true]
+                            aut.init['env'] = aut.init['sys'] = aut.true
+
+                            def bits(names):
+                                out = list()
+                                for v in names:
+                                    d = aut.vars[v]
+                                    out += [v] if d['type'] == 'bool' else list(d['bitnames'])
+                                return out
+                            xb, yb = bits(['a']), bits(['b'])
+                            base = xb + yb + [x + "'" for x in xb] + [x + "'" for x in yb]
+                            gm_ = explicit.Game(len(xb), len(yb), 0, _tt(aut, aut.action['env'], base),
+                                                _tt(aut, aut.action['sys'], base), moore, plus_one)
+                            st = xb + yb
+                            hs = [_tt(aut, h, st) for h in aut.win['<>[]']]
+                            gl = [_tt(aut, g, st) for g in aut.win['[]<>']]
+                            try:
+                                with contextlib.redirect_stdout(io.StringIO()):
+                                    zk, yki, xkijr = gr1.solve_rabin_game(aut)
+                            except Exception as e:
+                                fails.append(dict(name='solve_rabin_game runs on a chain game', error=repr(e)[:200]))
+                                continue
+                            want = set(gm_.rabin(hs, gl))
+                            got = _tt(aut, zk[-1], st)
+                            if got != want and len(fails) < 5:
+                                fails.append(dict(name='Rabin(1) region of a chain game whose persistence sets take turns over several outer iterations',
+                                                  positions=N + 1, persistence_sets=K, moore=moore, plus_one=plus_one, reversed=bool(order),
+                                                  outer_iterations=len(zk), differs_at=str(sorted(got ^ want)[:6])))
+                            ff = _check_iterates(aut, 'rabin', (zk, yki, xkijr))
+                            for x in ff[:1]:
+                                x['game'] = f'chain N={N} K={K} moore={moore} plus_one={plus_one}'
+                                fails.append(x)
+        return dict(records=[], stats=dict(), functions={}, bounded=dict(evaluations=n, backend=backend, failures=fails[:6]))
+    return run
